@@ -19,13 +19,14 @@ assert diff.strip(), "no change in worktree"
 # 1. demo fails with the change
 rc1, out1 = run("go test -vet=off -count=1 -run 'Seed|seed|Demo' %s" % pkg, wt)
 # 2. demo passes without
-run("git stash -q", wt)
+open("/tmp/_seed_patch_%s.diff" % name, "w").write(diff)
+run("git apply -R /tmp/_seed_patch_%s.diff" % name, wt)  # not git stash: refs/stash is shared by all worktrees
 rc2, out2 = run("go test -vet=off -count=1 -run 'Seed|seed|Demo' %s" % pkg, wt)
-run("git stash pop -q", wt)
+run("git apply /tmp/_seed_patch_%s.diff" % name, wt)
 # 3. existing tests pass with the change (demo moved away)
-os.rename(os.path.join(wt, demo), "/tmp/_demo_away.go")
+os.rename(os.path.join(wt, demo), "/tmp/_demo_away_%s.go" % name)
 rc3, out3 = run("go build ./... && go test -vet=off -count=1 ./... 2>&1 | grep -v '^ok\\|no test files'", wt, timeout=1800)
-os.rename("/tmp/_demo_away.go", os.path.join(wt, demo))
+os.rename("/tmp/_demo_away_%s.go" % name, os.path.join(wt, demo))
 fails = [l for l in out3.splitlines() if l.startswith("--- FAIL") and "OverwriteSymlink_RemovalFailed" not in l]
 confirmed = rc1 != 0 and rc2 == 0 and not fails
 print("demo with change rc=%d, without rc=%d, other failing tests: %s => confirmed=%s" % (rc1, rc2, fails, confirmed))
